@@ -2,7 +2,7 @@
 (***************************************************************************)
 (* L1 contract of openapi3filter.ValidateResponse (property C08).          *)
 (***************************************************************************)
-EXTENDS SchemaSem, MediaSelect
+EXTENDS HeaderRead, MediaSelect
 
 ClassKey(status) == CASE status \div 100 = 1 -> "1XX" [] status \div 100 = 2 -> "2XX" [] status \div 100 = 3 -> "3XX"
                       [] status \div 100 = 4 -> "4XX" [] status \div 100 = 5 -> "5XX" [] OTHER -> "-"
@@ -60,18 +60,31 @@ Declared(d) == CASE d = "none" -> {} [] d = "json" -> {Json} [] d = "jsonNoSchem
                  [] d = "text" -> {MT("text", "plain", "")} [] d = "wild" -> {MT("application", "*", "")}
                  [] d = "jsonAndText" -> {Json, MT("text", "plain", "")}
 
-DefAccepts(c) ==
-   /\ HeaderOK(c.hd, c.hv)
-   /\ \/ c.excludeBody
-      \/ c.decl = "none"
-      \/ LET sel == Select(Declared(c.decl), c.ct) IN
-         /\ ~IsNone(sel)
-         /\ \/ c.decl = "jsonNoSchema"
-            \/ IF sel.ty = "text"
-               THEN c.body.t = "str" /\ Valid(TextSchema, c.body, "asrep")
-               ELSE c.body.t \notin {"str", "raw"}        \* a text body / truncated text is not JSON
-                    /\ Valid(BodySchemaW(c.req, IF "wrap" \in DOMAIN c THEN c.wrap ELSE "plain"), c.body,
-                             IF c.excludeWO THEN "asrep_nowo" ELSE "asrep")
+(* the content of the selected definition: declared content type, then the body against its schema read as a response *)
+BodyAccepts(c) ==
+   \/ c.excludeBody
+   \/ c.decl = "none"
+   \/ LET sel == Select(Declared(c.decl), c.ct) IN
+      /\ ~IsNone(sel)
+      /\ \/ c.decl = "jsonNoSchema"
+         \/ IF sel.ty = "text"
+            THEN c.body.t = "str" /\ Valid(TextSchema, c.body, "asrep")
+            ELSE c.body.t \notin {"str", "raw"}        \* a text body / truncated text is not JSON
+                 /\ Valid(BodySchemaW(c.req, IF "wrap" \in DOMAIN c THEN c.wrap ELSE "plain"), c.body,
+                          IF c.excludeWO THEN "asrep_nowo" ELSE "asrep")
 
-Accepts(c) == IF c.part = "pick" THEN PickAccepts(c) ELSE DefAccepts(c)
+DefAccepts(c) == HeaderOK(c.hd, c.hv) /\ BodyAccepts(c)
+
+(* part 3 ("hdr"): ANY set of declared headers, each [name, hs (a schema of SchemaSem), hreq, explode, present, cs (the  *)
+(* text sent)].  A declared header that the response carries must satisfy its schema (HeaderRead: some reading of the    *)
+(* text is valid) -- whether it is required or not, and also when its text is empty: a header sent without a value is   *)
+(* PRESENT; one that is not sent must not be required.  Headers the definition does not declare are ignored.  Where the *)
+(* two readings of an empty piece disagree the verdict is open (neither HdrAccepts nor HdrRejects).                     *)
+HdrGood(h) == IF h.present THEN TextMustAccept(h.hs, h.cs, h.explode) ELSE ~h.hreq
+HdrBad(h)  == IF h.present THEN TextMustReject(h.hs, h.cs, h.explode) ELSE h.hreq
+HdrAccepts(c) == (\A i \in DOMAIN c.hdrs : HdrGood(c.hdrs[i])) /\ BodyAccepts(c)
+HdrRejects(c) == (\E i \in DOMAIN c.hdrs : HdrBad(c.hdrs[i])) \/ ~BodyAccepts(c)
+
+Accepts(c) == CASE c.part = "pick" -> PickAccepts(c) [] c.part = "hdr" -> HdrAccepts(c) [] OTHER -> DefAccepts(c)
+Rejects(c) == IF c.part = "hdr" THEN HdrRejects(c) ELSE ~Accepts(c)
 =============================================================================
